@@ -241,6 +241,24 @@ func runC14Catalogue(c *c14Case, st *stats, idx int) {
 			return
 		}
 		c.Errs = append(c.Errs, e)
+		// an acknowledged replica-set change is what every later listing (and snapshot) of the catalogue shows
+		if (ch.Kind == "add" || ch.Kind == "remove") && e == "KNone" {
+			for _, m := range a.list() {
+				for _, p := range m.Parts {
+					if m.Id != ch.Ds || p.Id != ch.Pid {
+						continue
+					}
+					has := false
+					for _, nid := range p.Nodes {
+						has = has || nid == ch.Node
+					}
+					if has != (ch.Kind == "add") {
+						fail(fmt.Sprintf("entry %d (%s node %d) was applied without error, yet the catalogue lists partition %s on nodes %v", i, ch.Kind, ch.Node, p.Id, p.Nodes), "replica-change-not-listed")
+						return
+					}
+				}
+			}
+		}
 		if i+1 == c.Cut {
 			snap, err = a.g.snapshot()
 			if err != nil {
